@@ -238,6 +238,37 @@ Proof.
   apply bool_decide_eq_true in Hb. apply elem_of_dom in Hb. set_solver.
 Qed.
 
+(** a row found through an index agrees with the model on an index for which
+    the model holds a value in every column *)
+Lemma first_usable_hit_agrees mvals : forall sm us u,
+  Forall (fun p => Inv1 T (rc_rows c) p.1 p.2) sm ->
+  first_usable_hit T mvals sm = Some us -> u ∈ us ->
+  exists s mi r, (s, mi) ∈ sm /\ usable T s mvals = true /\ rc_rows c !! u = Some r /\ K T s r = K T s mvals.
+Proof.
+  induction sm as [|[s m] sm IH]; intros us u Hall Hf Hu; [discriminate|].
+  inversion Hall as [|? ? [Hne Hm] Hrest]; subst. cbn in Hf. cbn in Hm, Hne.
+  destruct (usable T s mvals) eqn:Hus.
+  - destruct (m !! K T s mvals) as [us'|] eqn:Hk.
+    + inversion Hf; subst us'. assert (Hu' : u ∈ i_get m (K T s mvals)) by (unfold i_get; rewrite Hk; exact Hu).
+      apply Hm in Hu' as (r & Hr & HK). exists s, m, r. split; [left|]. split; [exact Hus|]. split; [exact Hr|exact HK].
+    + destruct (IH us u Hrest Hf Hu) as (s' & mi & r & Hin & H1 & H2 & H3). exists s', mi, r. split; [right; exact Hin|auto].
+  - destruct (IH us u Hrest Hf Hu) as (s' & mi & r & Hin & H1 & H2 & H3). exists s', mi, r. split; [right; exact Hin|auto].
+Qed.
+
+(** Where(model) for a model without uuid: every row it selects agrees with the
+    model on all columns of one index specification that is usable for the
+    model - unset (default) fields never select anything *)
+Theorem where_model_uses_usable_index mvals u :
+  u ∈ rbm_step T specs c ∅ (None, mvals) ->
+  exists s r, s ∈ specs /\ usable T s mvals = true /\ rc_rows c !! u = Some r /\ K T s r = K T s mvals.
+Proof.
+  unfold rbm_step. cbn [fst snd]. rewrite union_empty_l_L.
+  destruct (first_usable_hit T mvals (zip specs (rc_idx c))) as [us|] eqn:Hf; cbn [default]; [|set_solver].
+  intros Hu. destruct (first_usable_hit_agrees mvals _ us u Inv_zip Hf Hu) as (s & mi & r & Hin & H1 & H2 & H3).
+  exists s, r. split; [|auto]. apply elem_of_list_lookup in Hin as [i Hi]. apply lookup_zip_with_Some in Hi as (s0 & m0 & Heq & Hs & _).
+  inversion Heq; subst. eapply elem_of_list_lookup_2. exact Hs.
+Qed.
+
 Theorem matches_sub_dom cd : matches T specs c cd ⊆ dom (rc_rows c).
 Proof.
   destruct cd as [ms|any|cs]; cbn [matches].
